@@ -183,6 +183,20 @@ theorem SsubarrayKeep_ref (a : Arr) (ix : Index) : SsubarrayKeep (abs a) ix = (s
     | ok k => simp only [Except.bind, Ssubarray_ref]
   | _ => simp only [Ssubarray_ref]
 
+theorem Sgetitem2Rest_ref (a : Arr) (i0 i1 : Index) :
+    Sgetitem2Rest (abs a) i0 i1 = (getitem2Rest a i0 i1).map absVal := by
+  unfold Sgetitem2Rest getitem2Rest
+  rw [SsubarrayKeep_ref]
+  cases subarrayKeep a i1 with
+  | error e => rfl
+  | ok s =>
+    simp only [Except.map, abs_depth]
+    split
+    · rfl
+    · cases resolve s.coord.length i0 with
+      | error e => rfl
+      | ok ms => simp only [SselModels_ref]; rfl
+
 theorem Sgetitem2_ref (a : Arr) (i0 i1 : Index) : Sgetitem2 (abs a) i0 i1 = (getitem2 a i0 i1).map absVal := by
   unfold Sgetitem2 getitem2
   simp only [abs_stack]
@@ -195,35 +209,609 @@ theorem Sgetitem2_ref (a : Arr) (i0 i1 : Index) : Sgetitem2 (abs a) i0 i1 = (get
     · rfl
   case pos =>
     simp only [hs, Bool.not_true, Bool.false_eq_true, if_false]
-    have key : ∀ (i0 : Index), (∀ i, i0 ≠ .int i) →
-        (match SsubarrayKeep (abs a) i1 with
-          | .error e => .error e
-          | .ok t => if i0 = .ellipsis then .ok (.arr t)
-                     else (resolve t.depth i0).map (fun ms => SVal.arr (SselModels t ms))) =
-        (match subarrayKeep a i1 with
-          | .error e => .error e
-          | .ok s => if i0 = .ellipsis then .ok (.arr s)
-                     else (resolve s.coord.length i0).map (fun ms => Val.arr (selModels s ms))).map absVal := by
-      intro i0 _
-      rw [SsubarrayKeep_ref]
-      cases subarrayKeep a i1 with
-      | error e => rfl
-      | ok s =>
-        simp only [Except.map, abs_depth]
-        split
-        · rfl
-        · cases resolve s.coord.length i0 with
-          | error e => rfl
-          | ok ms => simp only [SselModels_ref]; rfl
     cases i0 with
     | int i =>
       simp only [SgetArray_ref]
       cases getArray a i with
       | error e => rfl
       | ok x => simp only [Except.map, Except.bind]; exact SarrayGet_ref x i1
-    | slice s1 s2 s3 => exact key _ (fun i h => by cases h)
-    | mask bs kd => exact key _ (fun i h => by cases h)
-    | arr is nd => exact key _ (fun i h => by cases h)
-    | ellipsis => exact key _ (fun i h => by cases h)
+    | _ => exact Sgetitem2Rest_ref a _ i1
+
+theorem map_eraseIdx' {α β} (f : α → β) : ∀ (l : List α) (m : Nat), (l.eraseIdx m).map f = (l.map f).eraseIdx m
+  | [], _ => rfl
+  | _ :: xs, 0 => rfl
+  | x :: xs, m + 1 => by simp [List.eraseIdx, map_eraseIdx' f xs m]
+
+theorem keep_getElem (k n j : Nat) (h : j < (List.range k ++ List.range' (k + 1) (n - 1 - k)).length) :
+    (List.range k ++ List.range' (k + 1) (n - 1 - k))[j] = if j < k then j else j + 1 := by
+  by_cases hj : j < k
+  · rw [List.getElem_append_left (by simpa using hj)]; simp [hj]
+  · rw [List.getElem_append_right (by simpa using hj)]
+    simp [hj]; omega
+
+theorem eraseIdx_eq_map_keep {α} (l : List α) (d : α) (k : Nat) (hk : k < l.length) :
+    l.eraseIdx k = (List.range k ++ List.range' (k + 1) (l.length - 1 - k)).map (fun i => l.getD i d) := by
+  apply List.ext_getElem
+  · simp [List.length_eraseIdx, hk]; omega
+  · intro j h1 h2
+    rw [List.getElem_eraseIdx]
+    simp only [List.getElem_map, keep_getElem]
+    have hlen : j < l.length - 1 := by simpa [List.length_eraseIdx, hk] using h1
+    by_cases hj : j < k
+    · simp only [hj, dite_true, if_true]
+      rw [List.getD_eq_getElem?_getD, List.getElem?_eq_getElem (by omega)]; rfl
+    · simp only [hj, dite_false, if_false]
+      rw [List.getD_eq_getElem?_getD, List.getElem?_eq_getElem (by omega)]; rfl
+
+/-! ## deletion -/
+
+theorem keep_lt (k n : Nat) (hk : k < n) : ∀ i ∈ List.range k ++ List.range' (k + 1) (n - 1 - k), i < n := by
+  intro i hi
+  simp only [List.mem_append, List.mem_range, List.mem_range'_1] at hi
+  omega
+
+theorem Sdelitem_ref (a : Arr) (ix : Index) (hw : WF a) : Sdelitem (abs a) ix = (delitem a ix).map abs := by
+  unfold Sdelitem delitem
+  cases ix with
+  | int i =>
+    simp only [abs_stack, abs_depth, abs_length]
+    by_cases hs : a.stack = true
+    · simp only [hs, if_true]
+      cases hn : normInt a.coord.length i with
+      | error e => rfl
+      | ok m =>
+        simp only [Except.map]
+        congr 1
+        simp only [abs]
+        congr 1
+        · rw [List.map_map]; apply List.map_congr_left; intro j _; simp [row, map_eraseIdx']
+        · simp [List.length_eraseIdx, (normInt_ok hn).1]
+    · have hs' : a.stack = false := by simpa using hs
+      simp only [hs', Bool.false_eq_true, if_false]
+      cases hn : normInt a.n i with
+      | error e => rfl
+      | ok k =>
+        have hk := (normInt_ok hn).1
+        have hcols : a.annot.map (fun p => (p.1, p.2.eraseIdx k)) =
+            a.annot.map (fun p => (p.1, pick p.2 (List.range k ++ List.range' (k + 1) (a.n - 1 - k)))) := by
+          apply List.map_congr_left
+          intro p hp
+          rw [eraseIdx_eq_map_keep p.2 0 k (by rw [hw.cols p hp]; exact hk), hw.cols p hp]; rfl
+        have hcoord : a.coord.map (fun c => c.eraseIdx k) =
+            a.coord.map (fun c => pick c (List.range k ++ List.range' (k + 1) (a.n - 1 - k))) := by
+          apply List.map_congr_left
+          intro c hc
+          rw [eraseIdx_eq_map_keep c 0 k (by rw [hw.blocks c hc]; exact hk), hw.blocks c hc]; rfl
+        have hlen : (List.range k ++ List.range' (k + 1) (a.n - 1 - k)).length = a.n - 1 := by simp; omega
+        have h1 := abs_pick a _ (a.bonds.map (·.select (List.range k ++ List.range' (k + 1) (a.n - 1 - k))))
+          (keep_lt k a.n hk)
+        simp only [hlen, hs'] at h1
+        simp only [Except.map, hcols, hcoord, h1]
+        have := eraseIdx_eq_map_keep (abs a).atoms dflt k (by simpa using hk)
+        simp only [abs_length] at this
+        simp only [this, SArr.at, abs_bonds, Option.map_map, Function.comp_def, Bonds.select, abs_stack, hs']
+        rfl
+  | _ => rfl
+
+
+/-! ## position-wise construction of the abstraction -/
+
+/-- to show that `abs a'` is a spec container whose atoms are given position by position -/
+theorem abs_eq_of_rows (a' : Arr) (st : Bool) (names) (G : Nat → SAtom) (n dp : Nat) (bx bd)
+    (hst : a'.stack = st) (hn : a'.n = n) (hnames : mapVals (fun _ => ()) a'.annot = names)
+    (hrows : ∀ i, i < n → row a' i = G i) (hdp : a'.coord.length = dp) (hbx : a'.box = bx)
+    (hbd : a'.bonds.map (·.bs) = bd) :
+    abs a' = ⟨st, names, (List.range n).map G, dp, bx, bd⟩ := by
+  subst hst hn hnames hdp hbx hbd
+  simp only [abs]
+  congr 1
+  apply List.map_congr_left
+  intro i hi
+  exact hrows i (by simpa using hi)
+
+theorem names_all (a : Arr) (q : String → Bool) : (abs a).names.all (fun p => q p.1) = a.annot.all (fun p => q p.1) := by
+  simp [abs, mapVals, List.all_map, Function.comp_def]
+
+theorem names_map (a : Arr) (f : α → β) (h : ∀ p ∈ a.annot, True) :
+    mapVals (fun _ => ()) (a.annot.map (fun p => (p.1, p.2))) = (abs a).names := by
+  simp [abs, mapVals]
+
+/-! ## element assignment -/
+
+theorem setAt_getD (xs : List Tok) (sel : List Nat) (v : Tok) (i : Nat) (h : i < xs.length) :
+    (setAt xs sel v).getD i 0 = if sel.contains i then v else xs.getD i 0 := by
+  simp only [setAt]
+  rw [getD_map_range _ _ _ _ h]
+
+theorem SsetElement_ref (a : Arr) (ix : Index) (v : AtomV) (hw : WF a) :
+    SsetElement (abs a) ix v = (setElement a ix v).map abs := by
+  unfold SsetElement setElement
+  simp only [abs_length, names_all a (fun k => hasKey k v.annot)]
+  split
+  · rfl
+  · split
+    · rfl
+    · cases hr : resolve a.n ix with
+      | error e => rfl
+      | ok sel =>
+        simp only [Except.map]
+        congr 1
+        symm
+        refine abs_eq_of_rows _ _ _ _ _ _ _ _ ?h1 ?h2 ?hnm ?hr ?h5 ?h6 ?h7 <;> try rfl
+        case hnm => simp [abs, mapVals, List.map_map, Function.comp_def]
+        case h5 => simp
+        case hr =>
+          intro i hi
+          rw [abs_at a i hi]
+          have hc : ∀ p ∈ a.annot, (setAt p.2 sel ((lookup p.1 v.annot).getD 0)).getD i 0 =
+              if sel.contains i then (lookup p.1 v.annot).getD 0 else p.2.getD i 0 :=
+            fun p hp => setAt_getD _ _ _ _ (by rw [hw.cols p hp]; exact hi)
+          have hb : ∀ c ∈ a.coord, (setAt c sel v.coord).getD i 0 = if sel.contains i then v.coord else c.getD i 0 :=
+            fun c hc => setAt_getD _ _ _ _ (by rw [hw.blocks c hc]; exact hi)
+          simp only [row, mapVals, List.map_map, Function.comp_def]
+          rw [List.map_congr_left (fun p hp => by rw [hc p hp]), List.map_congr_left (fun c hc' => hb c hc')]
+          by_cases hs : i ∈ sel <;> simp [hs]
+
+/-! ## annotation edits, setters, templates -/
+
+theorem SaddAnnotation_ref (a : Arr) (k : String) : SaddAnnotation (abs a) k = abs (addAnnotation a k) := by
+  unfold SaddAnnotation addAnnotation
+  have hk : hasKey k (abs a).names = hasKey k a.annot := by simp [abs, hasKey_mapVals]
+  rw [hk]
+  split
+  · rfl
+  · simp only [abs, mapVals, List.map_append, List.map_map, List.map_cons, List.map_nil]
+    congr 1
+    apply List.map_congr_left
+    intro i hmem
+    have hi : i < a.n := by simpa using hmem
+    simp [row, mapVals, zeros, Function.comp_def, List.getElem?_replicate, hi]
+
+theorem SsetAnnotation_ref (a : Arr) (k : String) (c : List Tok) :
+    SsetAnnotation (abs a) k c = (setAnnotation a k c).map abs := by
+  unfold SsetAnnotation setAnnotation
+  simp only [abs_length]
+  split
+  · rfl
+  · simp only [Except.map]
+    congr 1
+    symm
+    refine abs_eq_of_rows _ _ _ _ _ _ _ _ ?h1 ?h2 ?hnm ?hr ?h5 ?h6 ?h7 <;> try rfl
+    case hnm => simp only [mapVals_insert]; rfl
+    case hr =>
+      intro i hi
+      rw [abs_at a i hi]
+      simp only [row, mapVals_insert]
+
+theorem mapVals_filterKey {α β} (f : α → β) (q : String → Bool) (d : List (String × α)) :
+    mapVals f (d.filter (fun p => q p.1)) = (mapVals f d).filter (fun p => q p.1) := by
+  simp [mapVals, List.filter_map, Function.comp_def]
+
+theorem SdelAnnotation_ref (a : Arr) (k : String) : SdelAnnotation (abs a) k = (delAnnotation a k).map abs := by
+  unfold SdelAnnotation delAnnotation
+  split
+  · rfl
+  · simp only [Except.map]
+    congr 1
+    simp only [abs, List.map_map]
+    congr 1
+    · exact (mapVals_filterKey _ (fun x => x != k) _).symm
+    · apply List.map_congr_left
+      intro i _
+      simp only [Function.comp_def, row]
+      congr 1
+      exact (mapVals_filterKey _ (fun x => x != k) _).symm
+
+theorem all_len_abs (a : Arr) (coord : List (List Tok)) :
+    coord.all (fun c => c.length == (abs a).atoms.length) = coord.all (fun c => c.length == a.n) := by simp
+
+theorem SsetCoord_ref (a : Arr) (coord : List (List Tok)) : SsetCoord (abs a) coord = (setCoord a coord).map abs := by
+  unfold SsetCoord setCoord
+  simp only [abs_length, abs_stack, abs_boxes, abs_depth]
+  split
+  · rfl
+  · split
+    · rfl
+    · split
+      · rfl
+      · simp only [Except.map]
+        congr 1
+        symm
+        refine abs_eq_of_rows _ _ _ _ _ _ _ _ ?h1 ?h2 ?hnm ?hr ?h5 ?h6 ?h7 <;> try rfl
+        case hr =>
+          intro i hi
+          rw [abs_at a i hi]
+          simp [row]
+
+theorem SsetBox_ref (a : Arr) (box : Option (List Tok)) : SsetBox (abs a) box = (setBox a box).map abs := by
+  unfold SsetBox setBox
+  simp only [abs_depth]
+  by_cases h : boxDepthBad box a.coord.length = true
+  · simp only [h, if_true]; rfl
+  · simp only [h, if_false]; rfl
+
+theorem SsetBonds_ref (a : Arr) (bs : Option (List Bond)) : SsetBonds (abs a) bs = (setBonds a bs).map abs := by
+  unfold SsetBonds setBonds
+  cases bs with
+  | none => rfl
+  | some l =>
+    simp only [abs_length]
+    by_cases h : bondsValid a.n l = true
+    · simp only [h, if_true]; rfl
+    · simp only [h, if_false]; rfl
+
+theorem SfromTemplate_ref (a : Arr) (coord : List (List Tok)) (box : Option (List Tok)) :
+    SfromTemplate (abs a) coord box = (fromTemplate a coord box).map abs := by
+  unfold SfromTemplate fromTemplate
+  simp only [abs_length]
+  split
+  · rfl
+  · split
+    · rfl
+    · simp only [Except.map]
+      congr 1
+      symm
+      refine abs_eq_of_rows _ _ _ _ _ _ _ _ ?h1 ?h2 ?hnm ?hr ?h5 ?h6 ?h7 <;> try rfl
+      case hr =>
+        intro i hi
+        rw [abs_at a i hi]
+        simp [row]
+
+
+/-! ## constructors: `new`, `array`, `repeat` -/
+
+theorem mapVals_foldl_insert {α β} (f : α → β) : ∀ (cols : List (String × α)) (base : List (String × α)),
+    mapVals f (cols.foldl (fun d p => insert p.1 p.2 d) base) =
+      cols.foldl (fun d p => insert p.1 (f p.2) d) (mapVals f base)
+  | [], _ => rfl
+  | c :: cs, base => by
+    simp only [List.foldl_cons]
+    rw [mapVals_foldl_insert f cs, mapVals_insert]
+
+theorem mandCols_hdr (n : Nat) : mapVals (fun _ => ()) (mandCols n) = mandHdr := by
+  simp [mandCols, mandHdr, mapVals, List.map_map, Function.comp_def]
+
+theorem mandCols_row (n i : Nat) : mapVals (fun (c : List Tok) => c.getD i 0) (mandCols n) = mandRow := by
+  simp only [mandCols, mandRow, mapVals, List.map_map, Function.comp_def, zeros]
+  apply List.map_congr_left
+  intro k _
+  simp only [List.getD_eq_getElem?_getD, List.getElem?_replicate]
+  split <;> rfl
+
+theorem SmkNew_ref (stack : Bool) (n : Nat) (cols coord box bonds) :
+    SmkNew stack n cols coord box bonds = (mkNew stack n cols coord box bonds).map abs := by
+  unfold SmkNew mkNew
+  split
+  · rfl
+  · split
+    · rfl
+    · split
+      · rfl
+      · split
+        · rfl
+        · simp only [Except.map]
+          congr 1
+          symm
+          refine abs_eq_of_rows _ _ _ _ _ _ _ _ ?h1 ?h2 ?hnm ?hr ?h5 ?h6 ?h7 <;> try rfl
+          case hnm => simp only [mapVals_foldl_insert, mandCols_hdr]
+          case hr =>
+            intro i _
+            simp only [row, mapVals_foldl_insert, mandCols_row]
+          case h7 => cases bonds <;> rfl
+
+theorem map_range_eq_map' {α β} (l : List α) (f : Nat → β) (g : α → β) (h : ∀ k (hk : k < l.length), f k = g l[k]) :
+    (List.range l.length).map f = l.map g := by
+  apply List.ext_getElem
+  · simp
+  · intro k h1 h2
+    simp only [List.getElem_map, List.getElem_range]
+    exact h k (by simpa using h2)
+
+theorem getD_map_lt {α} (l : List α) (h : α → Tok) (k : Nat) (hk : k < l.length) :
+    (l.map h).getD k 0 = h l[k] := by
+  simp [List.getD_eq_getElem?_getD, List.getElem?_map, List.getElem?_eq_getElem hk]
+
+theorem SarrayOf_ref (xs : List AtomV) : SarrayOf xs = (arrayOf xs).map abs := by
+  unfold SarrayOf arrayOf
+  cases xs with
+  | nil => rfl
+  | cons f t =>
+    simp only
+    generalize f :: t = xs
+    split
+    · rfl
+    · simp only [Except.map]
+      congr 1
+      symm
+      simp only [abs]
+      congr 1
+      · rw [mapVals_foldl_insert, mandCols_hdr, List.foldl_map, List.foldl_map]
+      · refine map_range_eq_map' xs _ _ (fun k hk => ?_)
+        simp only [row, restrictRow]
+        rw [mapVals_foldl_insert, mandCols_row, List.foldl_map, List.foldl_map]
+        simp only [getD_map_lt _ _ _ hk, List.map_cons, List.map_nil]
+
+
+/-! ## repetition -/
+
+theorem tile_succ (k : Nat) (c : List Tok) : tile (k + 1) c = c ++ tile k c := by
+  simp [tile, joinCols, List.replicate_succ]
+
+theorem tile_getD (c : List Tok) : ∀ (k t : Nat), t < k * c.length → (tile k c).getD t 0 = c.getD (t % c.length) 0
+  | 0, t, h => by simp at h
+  | k + 1, t, h => by
+    rw [tile_succ]
+    simp only [List.getD_eq_getElem?_getD]
+    by_cases ht : t < c.length
+    · rw [List.getElem?_append_left ht, Nat.mod_eq_of_lt ht]
+    · have hge : c.length ≤ t := Nat.le_of_not_lt ht
+      rw [List.getElem?_append_right hge]
+      have h' : t - c.length < k * c.length := by rw [Nat.add_mul] at h; omega
+      have ih := tile_getD c k (t - c.length) h'
+      simp only [List.getD_eq_getElem?_getD] at ih
+      rw [ih]
+      have : (t - c.length) % c.length = t % c.length := by
+        conv => rhs; rw [← Nat.sub_add_cancel hge]
+        rw [Nat.add_mod_right]
+      rw [this]
+
+theorem chunks_getD (size : Nat) : ∀ (cnt : Nat) (xs : List Tok) (m t : Nat), m < cnt → t < size →
+    ((chunks size cnt xs).getD m []).getD t 0 = xs.getD (m * size + t) 0
+  | 0, _, _, _, h, _ => by omega
+  | c + 1, xs, 0, t, _, ht => by
+    simp only [chunks, List.getD_eq_getElem?_getD, List.getElem?_cons_zero, Option.getD_some, Nat.zero_mul, Nat.zero_add]
+    rw [List.getElem?_take_of_lt ht]
+  | c + 1, xs, m + 1, t, hm, ht => by
+    have ih := chunks_getD size c (xs.drop size) m t (by omega) ht
+    simp only [chunks, List.getD_eq_getElem?_getD, List.getElem?_cons_succ] at ih ⊢
+    rw [ih, List.getElem?_drop]
+    congr 2
+    rw [Nat.add_mul]; omega
+
+theorem bondsJoin_concat : ∀ (l : List Bonds),
+    bondsJoin (l.map (fun b => (b.count, b.bs))) = ((Bonds.concat l).count, (Bonds.concat l).bs)
+  | [] => rfl
+  | b :: r => by simp [bondsJoin, Bonds.concat, bondsJoin_concat r]
+
+theorem SrepeatArr_ref (a : Arr) (k : Nat) (toks : List Tok) (hw : WF a) :
+    SrepeatArr (abs a) k toks = (repeatArr a k toks).map abs := by
+  unfold SrepeatArr repeatArr
+  simp only [abs_length, abs_depth, abs_bonds]
+  by_cases hlen : toks.length ≠ k * a.coord.length * a.n
+  · simp only [if_pos hlen]; rfl
+  · simp only [if_neg hlen]
+    have hcnt : ∀ b, a.bonds = some b →
+        (Bonds.concat (List.replicate (max k 1) b)).count = a.n * max k 1 := by
+      intro b hb
+      rw [concat_count]
+      have hc := (hw.bonds b hb).1
+      generalize max k 1 = j
+      induction j with
+      | zero => simp
+      | succ j ih => simp only [List.replicate_succ, List.map_cons, List.foldr_cons, ih, hc]; rw [Nat.mul_succ]; omega
+    have hguard : (Option.isSome (a.bonds.map (·.bs)) && a.n * max k 1 != a.n * k) =
+        bondsCountBad (a.bonds.map (fun b => Bonds.concat (List.replicate (max k 1) b))) (a.n * k) := by
+      cases hb : a.bonds with
+      | none => rfl
+      | some b => simp [bondsCountBad, hcnt b hb]
+    rw [hguard]
+    split
+    · rfl
+    · simp only [Except.map]
+      congr 1
+      symm
+      refine abs_eq_of_rows _ _ _ _ _ _ _ _ ?h1 ?h2 ?hnm ?hr ?h5 ?h6 ?h7 <;> try rfl
+      case hnm => simp [abs, mapVals, List.map_map, Function.comp_def]
+      case h5 =>
+        have : toks.length = a.coord.length * (a.n * k) := by
+          have h0 : toks.length = k * a.coord.length * a.n := by simpa using hlen
+          rw [h0, Nat.mul_comm k, Nat.mul_assoc, Nat.mul_comm k]
+        exact (chunks_spec (a.n * k) a.coord.length toks this).1
+      case h7 =>
+        cases hb : a.bonds with
+        | none => rfl
+        | some b =>
+          simp only [Option.map_some]
+          have := bondsJoin_concat (List.replicate (max k 1) b)
+          simp only [List.map_replicate] at this
+          rw [(hw.bonds b hb).1] at this
+          rw [this]
+      case hr =>
+        intro t ht
+        have hn : 0 < a.n := by
+          rcases Nat.eq_zero_or_pos a.n with h0 | h0
+          · rw [h0] at ht; simp at ht
+          · exact h0
+        have hmod : t % a.n < a.n := Nat.mod_lt _ hn
+        rw [abs_at a _ hmod]
+        have htoks : toks.length = a.coord.length * (a.n * k) := by
+          have h0 : toks.length = k * a.coord.length * a.n := by simpa using hlen
+          rw [h0, Nat.mul_comm k, Nat.mul_assoc, Nat.mul_comm k]
+        have hch := chunks_spec (a.n * k) a.coord.length toks htoks
+        simp only [row, mapVals, List.map_map, Function.comp_def]
+        congr 1
+        · apply List.map_congr_left
+          intro p hp
+          have hl := hw.cols p hp
+          have := tile_getD p.2 k t (by rw [hl, Nat.mul_comm]; exact ht)
+          rw [hl] at this
+          rw [this]
+        · rw [← map_range_id (chunks (a.n * k) a.coord.length toks) [], List.map_map, hch.1]
+          apply List.map_congr_left
+          intro m hm
+          simp only [Function.comp_def]
+          exact chunks_getD _ _ _ _ _ (by simpa using hm) ht
+
+
+/-! ## equality of annotations / bonds, model assignment, stacking -/
+
+theorem hasKey_iff_lookup {α} (k : String) : ∀ (d : List (String × α)), hasKey k d = true ↔ ∃ v, lookup k d = some v
+  | [] => by simp [hasKey, lookup]
+  | (k', v') :: r => by
+    have ih := hasKey_iff_lookup k r
+    simp only [hasKey, List.any_cons, Bool.or_eq_true, beq_iff_eq] at ih ⊢
+    unfold lookup
+    by_cases h : k' = k
+    · simp [h]
+    · simp only [h, false_or, if_false]; exact ih
+
+theorem SequalAnnot_ref (a x : Arr) (hwa : WF a) (hwx : WF x) (hn : x.n = a.n) :
+    SequalAnnot (abs a) (abs x) = equalAnnot a.annot x.annot := by
+  unfold SequalAnnot equalAnnot sortedKeys
+  have hk1 : (abs a).names.map (·.1) = a.annot.map (·.1) := by simp [abs, mapVals_keys]
+  have hk2 : (abs x).names.map (·.1) = x.annot.map (·.1) := by simp [abs, mapVals_keys]
+  rw [hk1, hk2, Bool.and_assoc]
+  congr 1
+  rw [Bool.eq_iff_iff]
+  simp only [Bool.and_eq_true, List.all_eq_true, List.mem_range, abs_length, beq_iff_eq]
+  constructor
+  · rintro ⟨hkeys, hrows⟩ p hp
+    have hk : hasKey p.1 x.annot = true := by
+      have := hkeys (p.1, ()) (by simp only [abs, mapVals, List.mem_map]; exact ⟨p, hp, rfl⟩)
+      simpa [abs, hasKey_mapVals] using this
+    obtain ⟨c, hc⟩ := (hasKey_iff_lookup p.1 x.annot).1 hk
+    rw [hc]
+    congr 1
+    have hlc : c.length = a.n := by rw [← hn]; exact hwx.cols _ (lookup_mem hc)
+    have hlp : p.2.length = a.n := hwa.cols p hp
+    apply List.ext_getElem (by rw [hlc, hlp])
+    intro i h1 h2
+    have hi : i < a.n := by rw [← hlc]; exact h1
+    have := hrows i hi (p.1, p.2.getD i 0) (by
+      rw [abs_at a i hi]; simp only [row, mapVals, List.mem_map]; exact ⟨p, hp, rfl⟩)
+    rw [abs_at x i (by rw [hn]; exact hi)] at this
+    simp only [row, lookup_mapVals, hc, Option.map_some, Option.some.injEq] at this
+    simpa [List.getD_eq_getElem?_getD, List.getElem?_eq_getElem h1, List.getElem?_eq_getElem h2] using this
+  · intro h
+    refine ⟨?_, ?_⟩
+    · intro q hq
+      simp only [abs, mapVals, List.mem_map] at hq
+      obtain ⟨p, hp, rfl⟩ := hq
+      have : hasKey p.1 x.annot = true := (hasKey_iff_lookup _ _).2 ⟨_, h p hp⟩
+      simpa [abs, hasKey_mapVals] using this
+    · intro i hi q hq
+      rw [abs_at a i hi] at hq
+      rw [abs_at x i (by rw [hn]; exact hi)]
+      simp only [row, mapVals, List.mem_map] at hq
+      obtain ⟨p, hp, rfl⟩ := hq
+      simp only [row, lookup_mapVals, h p hp, Option.map_some]
+
+theorem SequalBonds_ref (a x : Arr) (hwa : WF a) (hwx : WF x) :
+    SequalBonds (abs a) (abs x) = equalBonds a.bonds x.bonds := by
+  unfold SequalBonds equalBonds
+  simp only [abs_bonds, abs_length]
+  cases ha : a.bonds with
+  | none => cases hx : x.bonds <;> rfl
+  | some b =>
+    cases hx : x.bonds with
+    | none => rfl
+    | some c =>
+      simp only [Option.map_some, (hwa.bonds b ha).1, (hwx.bonds c hx).1]
+
+theorem map_set {α β} (f : α → β) (l : List α) (m : Nat) (v : α) : (l.set m v).map f = (l.map f).set m (f v) := by
+  induction l generalizing m with
+  | nil => rfl
+  | cons x xs ih => cases m <;> simp [List.set, ih]
+
+theorem SsetModel_ref (a : Arr) (ix : Index) (v : Val) (hw : WF a) (hv : WFVal v) :
+    SsetModel (abs a) ix (absVal v) = (setModel a ix v).map abs := by
+  unfold SsetModel setModel
+  cases v with
+  | none => rfl
+  | atom t => rfl
+  | arr x =>
+    have hx : WF x := hv
+    simp only [absVal, abs_stack, abs_length, abs_depth, abs_boxes]
+    by_cases h1 : x.stack = true
+    · simp only [h1, if_true]; rfl
+    · simp only [h1, Bool.false_eq_true, if_false]
+      by_cases h2 : (x.n != a.n) = true
+      · simp only [h2, if_true]; rfl
+      · simp only [h2, Bool.false_eq_true, if_false]
+        have hn : x.n = a.n := by simpa using h2
+        rw [SequalAnnot_ref a x hw hx hn, SequalBonds_ref a x hw hx]
+        by_cases h3 : (!equalAnnot a.annot x.annot) = true
+        · simp only [h3, if_true]; rfl
+        · simp only [h3, Bool.false_eq_true, if_false]
+          by_cases h4 : (!equalBonds a.bonds x.bonds) = true
+          · simp only [h4, if_true]; rfl
+          · simp only [h4, Bool.false_eq_true, if_false]
+            cases ix with
+            | int i =>
+              simp only
+              cases hm : normInt a.coord.length i with
+              | error e => rfl
+              | ok m =>
+                simp only
+                by_cases h5 : (a.box.isSome != x.box.isSome) = true
+                · simp only [h5, if_true]; rfl
+                · simp only [h5, Bool.false_eq_true, if_false, Except.map]
+                  congr 1
+                  symm
+                  refine abs_eq_of_rows _ _ _ _ _ _ _ _ ?h1 ?h2 ?hnm ?hr ?h5 ?h6 ?h7 <;> try rfl
+                  case h5 => simp [replaceAt]
+                  case hr =>
+                    intro j hj
+                    rw [abs_at a j hj, abs_at x j (by rw [hn]; exact hj)]
+                    simp only [row, replaceAt, map_set, getD_map_getD]
+            | _ => rfl
+
+theorem Ssetitem_ref (a : Arr) (ix : Index) (v : Val) (hw : WF a) (hv : WFVal v) :
+    Ssetitem (abs a) ix (absVal v) = (setitem a ix v).map abs := by
+  unfold Ssetitem setitem
+  simp only [abs_stack]
+  by_cases hs : a.stack = true
+  · simp only [hs, if_true]; exact SsetModel_ref a ix v hw hv
+  · simp only [hs, Bool.false_eq_true, if_false]
+    cases v with
+    | atom t => exact SsetElement_ref a ix t hw
+    | _ => rfl
+
+theorem all_congr_mem {α} (l : List α) (p q : α → Bool) (h : ∀ a ∈ l, p a = q a) : l.all p = l.all q := by
+  rw [Bool.eq_iff_iff]
+  simp only [List.all_eq_true]
+  constructor
+  · intro hp a ha; rw [← h a ha]; exact hp a ha
+  · intro hq a ha; rw [h a ha]; exact hq a ha
+
+theorem SstackArrays_ref (xs : List Arr) (hw : ∀ a ∈ xs, WF a) :
+    SstackArrays (xs.map abs) = (stackArrays xs).map abs := by
+  unfold SstackArrays stackArrays
+  rw [List.head?_map]
+  cases hh : xs.head? with
+  | none => rfl
+  | some f =>
+    have hf : f ∈ xs := head?_mem hh
+    simp only [Option.map_some, List.any_map, List.all_map, Function.comp_def, abs_stack, abs_length, abs_boxes]
+    by_cases h1 : (xs.any fun x => x.stack) = true
+    · simp only [h1, if_true]; rfl
+    · simp only [h1, Bool.false_eq_true, if_false]
+      by_cases h2 : (!(xs.all fun a => a.n == f.n)) = true
+      · simp only [h2, if_true]; rfl
+      · simp only [h2, Bool.false_eq_true, if_false]
+        have hall : ∀ a ∈ xs, a.n = f.n := by
+          intro a ha
+          have : (xs.all fun a => a.n == f.n) = true := by simpa using h2
+          simpa using List.all_eq_true.1 this a ha
+        have hE : (xs.all fun x => SequalAnnot (abs x) (abs f)) = xs.all fun a => equalAnnot a.annot f.annot :=
+          all_congr_mem _ _ _ (fun a ha => SequalAnnot_ref a f (hw a ha) (hw f hf) (hall a ha).symm)
+        rw [hE]
+        by_cases h3 : (!(xs.all fun a => equalAnnot a.annot f.annot)) = true
+        · simp only [h3, if_true]; rfl
+        · simp only [h3, Bool.false_eq_true, if_false, Except.map]
+          congr 1
+          symm
+          refine abs_eq_of_rows _ _ _ _ _ _ _ _ ?h1 ?h2 ?hnm ?hr ?h5 ?h6 ?h7 <;> try rfl
+          case h5 => simp
+          case h6 => simp only [List.map_map, Function.comp_def, abs_boxes]
+          case hr =>
+            intro i hi
+            rw [abs_at f i hi]
+            simp only [row, List.map_map, Function.comp_def]
+            congr 1
+            apply List.map_congr_left
+            intro a ha
+            rw [abs_at a i (by rw [hall a ha]; exact hi)]
+            simp only [row, getD_map_getD]
 
 end BiotiteModel.C01
